@@ -41,7 +41,11 @@ func (check) Assumptions() []string {
 }
 
 var names = []string{"a", "b", "c", "d", "s.a", "s.b", "zz"} // zz is never defined in the root
-var lits = []string{"va", "vb", "v c", "v$x", "v}y", "v:z", "w", ""}
+// literals: '$' and '}' (the characters the escapes $$ and $} stand for) occur
+// in the middle, at the start and at the END of a literal, so that escape
+// sequences end up at every position of a string, including its last two
+// characters
+var lits = []string{"va", "vb", "v c", "v$x", "v}y", "v:z", "w", "", "v$", "v}", "$", "}", "$v", "}v"}
 
 func genWorld(r *rand.Rand, depth int) *model.World {
 	w := &model.World{Root: map[string]*model.Setting{}}
@@ -185,7 +189,13 @@ func classOf(res model.Res) string {
 
 func (check) Run(seed int64, tier string, idx int, verbose bool) harness.Result {
 	res := harness.NewR(idx)
-	r := rand.New(rand.NewSource(harness.Mix(seed, "C02", idx)))
+	runWorld(res, rand.New(rand.NewSource(harness.Mix(seed, "C02", idx))), tier, idx, verbose)
+	// second workload: expressions copied into several trees (forest.go)
+	runForest(res, rand.New(rand.NewSource(harness.Mix(seed, "C02-forest", idx))), idx, verbose)
+	return res.Done()
+}
+
+func runWorld(res *harness.R, r *rand.Rand, tier string, idx int, verbose bool) {
 	depth := 2 + r.Intn(2)
 	if tier == "thorough" {
 		depth = 2 + r.Intn(4)
@@ -200,12 +210,42 @@ func (check) Run(seed int64, tier string, idx int, verbose bool) harness.Result 
 	var err error
 	if p, pv, where := harness.Safe(func() { b, err = vx.Build(w, br) }); p {
 		res.Violate("panic", "panic %q at %s building %s", pv, where, desc)
-		return res.Done()
+		return
 	}
 	res.Eval(1)
 	if err != nil {
 		res.Violate("build-error", "building the config failed: %v; %s", err, desc)
-		return res.Done()
+		return
+	}
+	// the same settings once more in another spelling of their escapes (merged
+	// later: the later text is the one that counts)
+	if r.Intn(2) == 0 {
+		again := map[string]interface{}{}
+		var ks []string
+		for k, s := range w.Root {
+			if s.Ex != nil && !strings.HasPrefix(k, "ls.") {
+				ks = append(ks, k)
+			}
+		}
+		sort.Strings(ks)
+		for _, k := range ks {
+			if alt := renderAlt(w.Root[k].Ex, r); alt != w.Root[k].Ex.Render(false) {
+				again[k] = alt
+			}
+		}
+		if len(again) > 0 {
+			if p, pv, where := harness.Safe(func() { err = b.C.Merge(again, vx.BaseOpts...) }); p {
+				res.Violate("panic", "panic %q at %s merging %v into %s", pv, where, again, desc)
+				return
+			}
+			res.Eval(1)
+			if err != nil {
+				res.Violate("build-error", "merging %v failed: %v; %s", again, err, desc)
+				return
+			}
+			b.Merges = append(b.Merges, fmt.Sprintf("merge respelled %v", again))
+			res.Ev("settings_respelled_with_$}_outside_braces", int64(len(again)))
+		}
 	}
 	desc += " built by " + strings.Join(b.Merges, ", ")
 	if idx < 2 {
@@ -238,11 +278,13 @@ func (check) Run(seed int64, tier string, idx int, verbose bool) harness.Result 
 		if s.Ex.HasVar() {
 			res.Key(desc + "|" + k)
 		}
+		if endsInEscape(s.Ex.Render(false)) {
+			res.Ev("settings_ending_in_an_escape_sequence", 1)
+		}
 		b.ResetLog()
 		compare(res, w, b, k, s, want, mres, cls, desc, verbose)
 		checkResolverOrder(res, b, len(w.Ress), k, desc)
 	}
-	return res.Done()
 }
 
 // sigFor narrows a deviation to the failing mechanism.
@@ -262,6 +304,17 @@ func sigFor(w *model.World, s *model.Setting, cls string, got string) string {
 		return "container-in-string-context-accepted"
 	}
 	return "substitution-mismatch"
+}
+
+// valueSig: a wrong value; escape sequences left in the text get their own
+// signature.
+func valueSig(w *model.World, s *model.Setting, cls string, got, want string) string {
+	if cls == "value" {
+		if sig := escapeSig(got, want); sig != "" {
+			return sig
+		}
+	}
+	return sigFor(w, s, cls, "")
 }
 
 func compare(res *harness.R, w *model.World, b *vx.Built, k string, s *model.Setting, want interface{}, mres model.Res, cls string, desc string, verbose bool) {
@@ -343,7 +396,7 @@ func compare(res *harness.R, w *model.World, b *vx.Built, k string, s *model.Set
 		switch rd.how {
 		case "Unpack(interface{})":
 			if model.CanonIfc(rd.val) != model.CanonIfc(want) {
-				res.Violate(sigFor(w, s, cls, ""), "%s of %q = %s, model %s (text %q); %s", rd.how, k, model.CanonIfc(rd.val), model.CanonIfc(want), wantStr, desc)
+				res.Violate(valueSig(w, s, cls, fmt.Sprint(rd.val), wantStr), "%s of %q = %s, model %s (text %q); %s", rd.how, k, model.CanonIfc(rd.val), model.CanonIfc(want), wantStr, desc)
 				return
 			}
 			if s.Ex.IsSingleRef() && typeClass(rd.val) != typeClass(want) {
@@ -354,12 +407,12 @@ func compare(res *harness.R, w *model.World, b *vx.Built, k string, s *model.Set
 			got := rd.val.(string)
 			if vx.ParseNeutral(wantStr) || !s.Ex.HasVar() {
 				if got != wantStr {
-					res.Violate(sigFor(w, s, cls, ""), "%s of %q = %q, model %q; %s", rd.how, k, got, wantStr, desc)
+					res.Violate(valueSig(w, s, cls, got, wantStr), "%s of %q = %q, model %q; %s", rd.how, k, got, wantStr, desc)
 					return
 				}
 				res.Ev("compared_parse_neutral", 1)
 			} else if got != wantStr && got != model.PlainString(canonPrim(want)) && model.CanonIfc(vx.ExpectText(got)) != model.CanonIfc(want) {
-				res.Violate(sigFor(w, s, cls, ""), "%s of %q = %q, model text %q (value %s); %s", rd.how, k, got, wantStr, model.CanonIfc(want), desc)
+				res.Violate(valueSig(w, s, cls, got, wantStr), "%s of %q = %q, model text %q (value %s); %s", rd.how, k, got, wantStr, model.CanonIfc(want), desc)
 				return
 			}
 		}
